@@ -195,6 +195,8 @@ BodyItem(t) ==
     [] t.k = "use" -> <<BItem("use", t.n, t.a, <<>>, t.g)>>
     [] t.k = "pos" -> <<BItem("pos", t.n, <<>>, <<>>, t.g)>>
     [] t.k = "gap" -> <<BItem("gap", "", <<>>, <<>>, FALSE)>>
+    [] t.k = "undef" -> <<BItem("undef", t.n, <<>>, <<"`", "undef", t.n>>, FALSE)>>        \* directives inside a body are executed
+    [] t.k = "undefall" -> <<BItem("undefall", "", <<>>, <<"`", "undefineall">>, FALSE)>>  \* when the expansion is rescanned
     [] t.k = "cmt" -> <<BItem("cmt", t.n, <<>>, <<t.n>>, t.g)>>     \* a block comment inside a body is part of the expansion
     [] t.k = "inc" -> <<BItem("inc", t.n, <<>>, <<>>, FALSE)>>      \* a body that contains `include "f"
     [] OTHER -> <<>>       \* "cont" (line continuation) and "lcmt" (// comment) contribute no token
